@@ -46,16 +46,9 @@ def llvm_calls(node):
     return [hirq.callee(c).split("::")[-1] for c in hirq.calls(node) if (hirq.callee(c) or "").split("::")[-1].startswith("LLVMBuild")]
 
 
-def is_signed_source(arm_or_body, field):
-    """`let is_signed = <field>.is_signed();`"""
-    for n in walk(arm_or_body):
-        if n.get("k") == "Let" and n["pat"].get("name") == "is_signed":
-            i = hirq.unwrap_trivial(n["init"])
-            if i.get("k") == "MethodCall" and hirq.callee(i) == "alpha::value_type::ValueType::is_signed":
-                r = hirq.unwrap_trivial(i["recv"])
-                name = hirq.local_name_of(r) or (r.get("name") if r.get("k") == "Field" else None)
-                return name
-    return None
+def signed_guard(field):
+    """Canonical form (hirq.full_env) of the guard `is_signed` when the local was initialised from <self.field>.is_signed()."""
+    return "{self.%s.is_signed()}" % field
 
 
 def r1_binary(run, F):
@@ -63,11 +56,14 @@ def r1_binary(run, F):
     m = [x for x in hirq.matches(g["hir"]) if hirq.n_alts(x) > 12][0]
     barm = hirq.arm_for(m, "Expression::Binary")
     run.require(barm, "Expression::Binary arm not found in the generator")
-    om = [x for x in hirq.matches(barm[0]["body"]) if hirq.local_name_of(hirq.unwrap_trivial(x["scrut"])) == "op"]
-    run.require(om, "match op not found in the Binary arm")
+    env = hirq.full_env(g)
+    om = hirq.matches_on_type(F.lib, barm[0]["body"], "BinaryOp", 6)
+    run.require(om, "the match over the BinaryOp was not found in the Binary arm")
     rows = []
+    SG = signed_guard("value_type")
     for a in om[0]["arms"]:
-        guard = hirq.summarize_bool(a["guard"]) if "guard" in a else None
+        guard = hirq.summarize_bool(a["guard"], env) if "guard" in a else None
+        guard = "is_signed" if guard == SG else guard
         for alt in hirq.pat_alts(a["pat"]):
             if hirq.is_catchall(alt):
                 rows.append(("_", guard, llvm_calls(a["body"])))
@@ -79,18 +75,24 @@ def r1_binary(run, F):
                "row %d of the opcode table must be %s, found %s (a swapped or unguarded row miscompiles every program using that operator)" % (i, want, got),
                sample={"want": want, "got": got})
     run.ob("R1-BINARY-OPCODES", "row count", len(rows) == len(REF_BINARY), F.where(g, om[0]), "%d rows" % len(rows))
-    src = is_signed_source(barm[0]["body"], "value_type")
-    run.ob("R1-SIGNEDNESS-SOURCE", "Binary", src == "value_type", F.where(g, barm[0]),
-           "is_signed must be read from the Binary node's own value_type (found %s)" % src)
+    srcs = sorted(set(hirq.summarize_bool(a["guard"], env) for a in om[0]["arms"] if "guard" in a))
+    run.ob("R1-SIGNEDNESS-SOURCE", "Binary", srcs == [SG], F.where(g, barm[0]),
+           "the signedness that selects sdiv/srem must be read from the Binary node's own value_type (guards: %s)" % srcs)
     # operand order: LLVMBuildX(builder, left, right, ..)
     for a in om[0]["arms"]:
         for c in hirq.calls(a["body"]):
             cn = (hirq.callee(c) or "").split("::")[-1]
             if cn.startswith("LLVMBuild") and cn != "LLVMBuildGEP":
-                names = [hirq.local_name_of(hirq.unwrap_trivial(x)) for x in c["a"][1:3]]
-                run.ob("R1-OPERAND-ORDER", cn, names == ["left", "right"], F.where(g, c), "%s(builder, left, right): %s" % (cn, names))
+                from rules import origins as _or
+                ol = _or.origins(g["hir"], c["a"][1], g.get("params", ()))
+                orr = _or.origins(g["hir"], c["a"][2], g.get("params", ()))
+                fl = sorted(k[2] for k in ol if k[0] == "patfield" and k[2] in ("left", "right"))
+                fr = sorted(k[2] for k in orr if k[0] == "patfield" and k[2] in ("left", "right"))
+                names = [fl, fr]
+                ok_ = fl == ["left"] and fr == ["right"]
+                run.ob("R1-OPERAND-ORDER", cn, ok_, F.where(g, c), "%s(builder, <left operand>, <right operand>): %s" % (cn, names))
     uarm = hirq.arm_for(m, "Expression::Unary")
-    um = [x for x in hirq.matches(uarm[0]["body"]) if hirq.local_name_of(hirq.unwrap_trivial(x["scrut"])) == "op"] if uarm else []
+    um = hirq.matches_on_type(F.lib, uarm[0]["body"], "UnaryOp", 2) if uarm else []
     urows = [(hirq.pat_key(a["pat"]).split("::")[-1], llvm_calls(a["body"])) for a in um[0]["arms"]] if um else []
     run.ob("R1-UNARY-OPCODES", "table", urows == [("Negative", ["LLVMBuildNeg"]), ("BitwiseComplement", ["LLVMBuildNot"])], F.where(g),
            "unary lowering: %s" % urows)
@@ -101,8 +103,11 @@ def r2_comparison(run, F):
     om = [x for x in hirq.matches(g["hir"]) if hirq.n_alts(x) >= 6]
     run.require(om, "match self.op not found in Comparison::generate")
     rows = []
+    env = hirq.full_env(g)
+    SG = signed_guard("compared_type")
     for a in om[0]["arms"]:
-        guard = hirq.summarize_bool(a["guard"]) if "guard" in a else None
+        guard = hirq.summarize_bool(a["guard"], env) if "guard" in a else None
+        guard = "is_signed" if guard == SG else guard
         preds = [hirq.short(p).split("::")[-1] for p, _ in hirq.constructs(a["body"]) if "LLVMIntPredicate" in hirq.short(p)]
         rows.append((hirq.pat_key(a["pat"]).split("::")[-1], guard, preds[0] if len(preds) == 1 else preds))
     for i, want in enumerate(REF_CMP):
@@ -110,10 +115,17 @@ def r2_comparison(run, F):
         run.ob("R2-COMPARISON-PREDICATES", "%s%s" % (want[0], " if is_signed" if want[1] else ""), got == want, F.where(g, om[0]),
                "row %d of the predicate table must be %s, found %s" % (i, want, got), sample={"want": want, "got": got})
     run.ob("R2-COMPARISON-PREDICATES", "row count", len(rows) == len(REF_CMP), F.where(g), "%d rows" % len(rows))
-    src = is_signed_source(g["hir"], "compared_type")
-    run.ob("R1-SIGNEDNESS-SOURCE", "Comparison", src == "compared_type", F.where(g), "is_signed must be read from compared_type (found %s)" % src)
+    srcs = sorted(set(hirq.summarize_bool(a["guard"], env) for a in om[0]["arms"] if "guard" in a))
+    run.ob("R1-SIGNEDNESS-SOURCE", "Comparison", srcs == [SG], F.where(g), "the signedness that selects the predicate must be read from compared_type (guards: %s)" % srcs)
     ic = [c for c in hirq.calls(g["hir"]) if (hirq.callee(c) or "").endswith("LLVMBuildICmp")]
-    ok = len(ic) == 1 and [hirq.local_name_of(hirq.unwrap_trivial(x)) for x in ic[0]["a"][1:4]] == ["pred", "left", "right"]
+    from rules import origins as _or
+    ok = False
+    if len(ic) == 1:
+        o1 = _or.origins(g["hir"], ic[0]["a"][1], g.get("params", ()))
+        o2 = _or.origins(g["hir"], ic[0]["a"][2], g.get("params", ()))
+        o3 = _or.origins(g["hir"], ic[0]["a"][3], g.get("params", ()))
+        ok = any(k[0] == "call" and "LLVMIntPredicate" in str(k) for k in o1) or any("LLVMInt" in str(k) for k in o1) or ("field", "op") in o1
+        ok = ok and ("field", "left") in o2 and ("field", "right") not in o2 and ("field", "right") in o3 and ("field", "left") not in o3
     run.ob("R1-OPERAND-ORDER", "LLVMBuildICmp", ok, F.where(g), "LLVMBuildICmp(builder, pred, left, right)")
 
 
@@ -121,16 +133,23 @@ def r3_conversion(run, F):
     b = F.body("alpha::generator::generate_conversion")
     m = hirq.find_match(b, min_arms=4)
     rows = []
+    genv = hirq.full_env(b)
+    gpar = [q.get("name") for q in b.get("params", [])]
+    run.require(len(gpar) == 4, "generate_conversion: expected (value, value_type, coerced_type, llvm) parameters, found %s" % gpar)
+
+    def roles(txt, src, dst):
+        return txt.replace(src, "<from>").replace(dst, "<to>") if txt else txt
     for a in m["arms"]:
-        guard = hirq.summarize_bool(a["guard"]) if "guard" in a else None
+        guard = roles(hirq.summarize_bool(a["guard"], genv), "$2", "$3") if "guard" in a else None
         pan = any(hirq.panic_kind(c) == "unreachable" for c in hirq.calls(a["body"]))
         rows.append((hirq.pat_key(a["pat"]), guard, "unreachable" if pan else "lowered"))
     r = F.body("alpha::resolver::is_valid_primitive_conversion")
     rm = hirq.find_match(r, min_arms=4)
     rrows = []
+    renv = hirq.full_env(r)
     for a in rm["arms"]:
-        guard = hirq.summarize_bool(a["guard"]) if "guard" in a else None
-        rrows.append((hirq.pat_key(a["pat"]), guard, hirq.summarize_bool(a["body"])))
+        guard = roles(hirq.summarize_bool(a["guard"], renv), "$1", "$2") if "guard" in a else None
+        rrows.append((hirq.pat_key(a["pat"]), guard, hirq.summarize_bool(a["body"], renv)))
     ok = len(rows) == len(rrows)
     for (gp, gg, go), (rp, rg, ro) in zip(rows, rrows):
         same = gp == rp and gg == rg and ((ro == "true" and go == "lowered") or (ro == "false" and go == "unreachable"))
@@ -139,7 +158,7 @@ def r3_conversion(run, F):
         ok = ok and same
     run.ob("R3-CONVERSION-AGREES", "row count", len(rows) == len(rrows), F.where(b), "%d generator rows, %d resolver rows" % (len(rows), len(rrows)))
     # integral arm: trunc / sext / zext chain
-    iarm = [a for a in m["arms"] if "guard" in a and hirq.summarize_bool(a["guard"]) == "(vt.is_integral() && ct.is_integral())"]
+    iarm = [a for a in m["arms"] if "guard" in a and roles(hirq.summarize_bool(a["guard"], genv), "$2", "$3") == "(<from>.is_integral() && <to>.is_integral())"]
     run.require(len(iarm) == 1, "integral arm not found in generate_conversion")
     chain = []
     n = None
@@ -147,22 +166,41 @@ def r3_conversion(run, F):
         if x.get("k") == "If" and "else" in x:
             n = x
             break
+    first_cond = n["cond"] if n is not None else None
     while n is not None and n.get("k") == "If":
-        chain.append((hirq.summarize_bool(n["cond"]), llvm_calls(n["then"])))
+        cond_txt = "narrowing" if n["cond"] is first_cond else roles(hirq.summarize_bool(n["cond"], genv), "$2", "$3")
+        chain.append((cond_txt, llvm_calls(n["then"])))
         e = hirq.unwrap_trivial(n.get("else", {}))
         if e.get("k") == "If":
             n = e
         else:
             chain.append(("else", llvm_calls(e)))
             n = None
-    want = [("is_truncated", ["LLVMBuildTrunc"]), ("vt.is_signed()", ["LLVMBuildSExtOrBitCast"]), ("else", ["LLVMBuildZExtOrBitCast"])]
+    want = [("narrowing", ["LLVMBuildTrunc"]), ("<from>.is_signed()", ["LLVMBuildSExtOrBitCast"]), ("else", ["LLVMBuildZExtOrBitCast"])]
     run.ob("R3-EXTENSION-BY-SOURCE-TYPE", "integral conversions", chain == want, F.where(b, iarm[0]),
            "narrowing truncates; widening sign-extends iff the *source* type is signed, else zero-extends: %s" % chain, sample=chain)
-    it = None
-    for x in walk(iarm[0]["body"]):
-        if x.get("k") == "Let" and x["pat"].get("name") == "is_truncated":
-            it = hirq.summarize_bool(x["init"])
-    run.ob("R3-EXTENSION-BY-SOURCE-TYPE", "is_truncated", it == "(dest_size_in_bits < src_size_in_bits)", F.where(b), "is_truncated = %s" % it)
+    # the first condition means "the destination is narrower than the source": <size of the coerced type> < <size of the value's type>
+    from rules import origins as _or
+    it = False
+    detail = "first condition not found"
+    if first_cond is not None:
+        defs = _or.definitions(b["hir"], b.get("params", ()))
+        c0 = hirq.unwrap_trivial(first_cond)
+        seen = 0
+        while c0.get("k") == "Path" and c0.get("rk") == "Local" and seen < 3:
+            srcs_ = [src for src, _ in defs.get(c0.get("lid"), []) if src is not None]
+            if len(srcs_) != 1:
+                break
+            c0 = hirq.unwrap_trivial(srcs_[0])
+            seen += 1
+        if c0.get("k") == "Binary" and c0.get("op") in ("Lt", "Gt"):
+            small, big = (c0["lhs"], c0["rhs"]) if c0["op"] == "Lt" else (c0["rhs"], c0["lhs"])
+            tr = ("::size_in_bits", "Generatable>::generate")
+            os_, ob_ = _or.origins(b["hir"], small, b.get("params", ()), transparent=tr), _or.origins(b["hir"], big, b.get("params", ()), transparent=tr)
+            it = ("param", gpar[2]) in os_ and ("param", gpar[1]) not in os_ and ("param", gpar[1]) in ob_ and ("param", gpar[2]) not in ob_ \
+                and any(str(k[1]).endswith("size_in_bits") for k in os_ if k[0] == "call") and any(str(k[1]).endswith("size_in_bits") for k in ob_ if k[0] == "call")
+            detail = "smaller side derives from %s, larger side from %s" % (sorted(k[1] for k in os_ if k[0] == "param"), sorted(k[1] for k in ob_ if k[0] == "param"))
+    run.ob("R3-EXTENSION-BY-SOURCE-TYPE", "is_truncated", it, F.where(b), "truncation is chosen when size_in_bits(coerced type) < size_in_bits(value's type): %s" % detail)
     barm = [a for a in m["arms"] if hirq.pat_key(a["pat"]).startswith("(ValueType::Bool")]
     run.ob("R3-EXTENSION-BY-SOURCE-TYPE", "bool -> int", len(barm) == 1 and llvm_calls(barm[0]["body"]) == ["LLVMBuildZExtOrBitCast"], F.where(b),
            "true converts to 1, not -1: zero extension")
@@ -170,7 +208,7 @@ def r3_conversion(run, F):
         k = hirq.pat_key(a["pat"])
         if k in ("(ValueType::Uint8,ValueType::Char8)", "(ValueType::Char8,ValueType::Uint8)"):
             body = hirq.unwrap_trivial(a["body"])
-            ok2 = body.get("k") == "Call" and hirq.local_name_of(hirq.unwrap_trivial(body["a"][0])) == "value"
+            ok2 = body.get("k") == "Call" and hirq.local_name_of(hirq.unwrap_trivial(body["a"][0])) == gpar[0]
             run.ob("R3-EXTENSION-BY-SOURCE-TYPE", k, ok2, F.where(b, a), "u8 <-> char8 is the identity")
 
 
@@ -206,7 +244,9 @@ def r7_member_index(run, F):
     ma = F.body("alpha::typer::Typer::analyze_member_access")
     rets = []
     for n in walk(ma["hir"]):
-        if n.get("k") == "If" and hirq.summarize_bool(n["cond"]) in ("(name.name == access.name)", "(access.name == name.name)"):
+        c_ = hirq.unwrap_trivial(n["cond"]) if n.get("k") == "If" else {}
+        # `<member>.name == <accessed identifier>.name` (whatever the two are called)
+        if c_.get("k") == "Binary" and c_.get("op") == "Eq" and all(hirq.unwrap_trivial(c_[x]).get("k") == "Field" and hirq.unwrap_trivial(c_[x]).get("name") == "name" for x in ("lhs", "rhs")):
             for r in walk(n["then"]):
                 if r.get("k") == "Ret":
                     rets.append(origins.origins(ma["hir"], r.get("e"), ma.get("params", ())))
